@@ -39,17 +39,25 @@ def project(evs, ost, wfout=None):
                 out.append({'k': 'HB', 'who': 'F', 's': e['step'], 'prev': 'nil', 'out': 'nil', 'stage': e['stage']})
         elif k == 'HExit':
             out.append({'k': 'HE'})
-        elif k == 'SProv' and e.get('ok') and e['stage'] in ('deploy', 'enabling', 'starting'):
+        elif k == 'SProv' and e.get('ok') and e['stage'] in ('deploy', 'enabling', 'starting', 'execute'):
             out.append({'k': 'Prov', 's': s, 'st': e['stage'], 'state': nz(e.get('state'))})
+        elif k == 'SProv' and e.get('closed') and e['stage'] in ('enabling', 'execute'):
+            out.append({'k': 'Prov', 's': s, 'st': e['stage'], 'state': 'nil'})     # handed to a closed loop step: dropped by the step
         elif k == 'Provide' and e['stage'] == 'cancelled':
             out.append({'k': 'Prov', 's': e['step'], 'st': 'cancelled', 'state': 'nil'})
         elif k == 'ErrPush' and e['kind'] != 'reinsert':
             out.append({'k': 'Err', 'kind': ERRMAP.get(e['kind'], e['kind']), 'len': e['len']})
         elif k == 'OutSend':
             out.append({'k': 'Out', 'id': WFOUT.get(e['id'], e['id'])})
-        elif k == 'SSlot' and e['op'] in ('take', 'miss'):
-            out.append({'k': 'Slot', 's': s, 'slot': e['slot'], 'op': e['op'],
-                        'val': ('T' if e.get('val') in (True, 'true') else 'F') if e['slot'] == 'enabling' else 'nil'})
+        elif k == 'SSlot' and e['op'] in ('take', 'miss', 'peek', 'ctxdone'):
+            val = 'nil'
+            if e['slot'] == 'enabling':
+                val = 'T' if e.get('val') in (True, 'true') else 'F'
+            elif e['op'] == 'peek':
+                val = 'T' if e.get('avail') in (True, 'true') else 'F'
+            out.append({'k': 'Slot', 's': s, 'slot': e['slot'], 'op': e['op'], 'val': val})
+        elif k == 'FCollect':
+            out.append({'k': 'Collect', 's': s, 'ok': int(e.get('nerr', 0)) == 0})
         elif k == 'SDeployRet':
             out.append({'k': 'Deploy', 's': s, 'ok': e.get('err') is None, 'ctxdone': bool(e.get('ctxdone'))})
         elif k == 'SConn':
@@ -84,6 +92,8 @@ def project(evs, ost, wfout=None):
             out.append({'k': 'Return', 'kind': 'error' if err is not None else 'output', 'id': WFOUT.get(e.get('id'), nz(e.get('id'))) if err is None else 'nil'})
         elif k == 'XCallerCancel':
             out.append({'k': 'Cancel'})
+        elif k == 'SClose' and e.get('kind') in ('force', 'close'):
+            out.append({'k': 'Close', 's': s, 'ok': bool(e.get('was'))})      # ok = the closed flag had been set before
         elif k == 'SCtx':
             out.append({'k': 'Ctx', 's': s, 'why': e['why']})
     # every record gets every field (TLC records are compared field-wise)
@@ -113,6 +123,8 @@ def node_of(ref):
     if len(parts) == 3:
         return ['st', parts[1], parts[2]]
     if len(parts) == 4:
+        if parts[2] == 'failed':
+            return ['so', parts[1], 'failed', 'error']
         if parts[2] in ('crashed', 'deploy_failed'):
             raise KeyError(ref)       # evaluating these engine-generated outputs fails (KNOWN_FINDINGS KF-C08): outside the fragment
         return ['so', parts[1], parts[2], parts[3]]
@@ -150,9 +162,27 @@ def custom_of(wf, oc=None):
 def _custom_of(wf, oc):
     steps = sorted(wf['steps'])
     refs = {}
-    enabled, stop = {}, {}
+    enabled, stop, kinds = {}, {}, {}
     for sid in steps:
         d = wf['steps'][sid]
+        kinds[sid] = d['kind']
+        if d['kind'] == 'foreach':
+            per = {'enabling': [], 'execute': []}
+            enabled[sid] = 'F' if oc.get(sid, {}).get('enabled') is False else 'T'
+            stop[sid] = 'F'
+            for f, t in d['fields'].items():
+                if f not in ('items', 'parallelism', 'wait_for', 'enabled'):
+                    return None
+                r = tree_refs(t)
+                if r is None:
+                    return None
+                for x in r:
+                    n = node_of(x)
+                    st = 'enabling' if f == 'enabled' else 'execute'
+                    if n is not None and n not in per[st]:
+                        per[st].append(n)
+            refs[sid] = per
+            continue
         if d['kind'] != 'plugin' or d.get('pstep', 'work') != 'work':
             return None
         per = {'starting': [], 'deploy': [], 'enabling': [], 'cancelled': []}
@@ -180,4 +210,4 @@ def _custom_of(wf, oc):
         if r is None:
             return None
         outs[oid] = [n for n in (node_of(x) for x in dict.fromkeys(r)) if n is not None]
-    return {'steps': steps, 'refs': refs, 'outputs': outs, 'enabled': enabled, 'stop': stop}
+    return {'steps': steps, 'refs': refs, 'outputs': outs, 'enabled': enabled, 'stop': stop, 'kinds': kinds}
